@@ -1,12 +1,46 @@
 import TwistedModel.Dns.Text
+import TwistedModel.Dns.Proto
 /-!
 Driver glue for C33 (text format: see `TwistedModel/Dns/Text.lean`).
   `C33 dec <hex>`  → `<msg>` | `!raised X`    `Message.fromStr` (what `DNSDatagramProtocol.datagramReceived`
                                                and `DNSProtocol.dataReceived` call on a packet)
   `C33 edec <hex>` → `<emsg>` | `!raised X`   `_EDNSMessage.fromStr`
+  `C33 tcp <ids> <chunks>` → `<event> | … | state <length> <buffer> <ids>`
+        a fresh `DNSProtocol` whose `liveMessages` has the keys `<ids>`, `dataReceived` of each chunk in turn
+        until one raises; `<event>` = `ctl <msg>` (`controller.messageReceived`) | `qry <msg>` (the pending
+        query's Deferred) | `!raised X`; the final `length` (`-` = None), `buffer` and `liveMessages` keys
+  `C33 udp <ids> <ids> <hex>` → `truncated` | `invalid` | `unexpected X` | `qry <msg>` | `ctl <msg>` | `resend`
+        `DNSDatagramProtocol.datagramReceived` with those `liveMessages` / `resends` keys
+  `<ids>` = decimal numbers separated by `,` or `-` for none; `<chunks>` = hex strings (`-` = empty) separated
+  by `;`, `.` = no chunk at all
 -/
 namespace Twisted.Drv.C33
-open Twisted.Py Twisted.Dns.Wire Twisted.Dns.Text
+open Twisted.Py Twisted.Dns.Wire Twisted.Dns.Text Twisted.Dns.Proto
+
+def parseIds (s : String) : Option (List Nat) :=
+  if s = "-" then some [] else (s.splitOn ",").mapM String.toNat?
+
+def showIds (l : List Nat) : String := if l.isEmpty then "-" else ",".intercalate (l.map toString)
+
+def parseChunks (s : String) : Option (List Bytes) :=
+  if s = "." then some [] else (s.splitOn ";").mapM unhex
+
+def showDelivery : Delivery → String
+  | .controller m => "ctl " ++ showMsg m
+  | .query m => "qry " ++ showMsg m
+
+def showTcp (r : TcpResult) : String :=
+  let evs := r.delivered.map showDelivery ++ (match r.raised with | some e => [showErr e] | none => [])
+  let len := match r.state.length with | none => "-" | some l => toString l
+  " | ".intercalate (evs ++ [s!"state {len} {hex r.state.buffer} {showIds r.state.live}"])
+
+def showUdp : UdpOutcome → String
+  | .truncated => "truncated"
+  | .invalid => "invalid"
+  | .unexpected e => "unexpected " ++ ((showErr e).drop 8).toString
+  | .query m => "qry " ++ showMsg m
+  | .controller m => "ctl " ++ showMsg m
+  | .resend _ => "resend"
 
 def handle (args : List String) : String :=
   match args with
@@ -22,6 +56,14 @@ def handle (args : List String) : String :=
     | some bs => match decodeEMsg bs with
       | .error e => showErr e
       | .ok m => showEMsg m
+  | ["tcp", ids, chunks] =>
+    match parseIds ids, parseChunks chunks with
+    | some live, some cs => showTcp ((Tcp.init live).feed cs)
+    | _, _ => "bad-op"
+  | ["udp", live, resends, h] =>
+    match parseIds live, parseIds resends, unhex h with
+    | some live, some resends, some bs => showUdp (datagramReceived live resends bs)
+    | _, _, _ => "bad-op"
   | _ => "bad-op"
 
 end Twisted.Drv.C33
